@@ -32,6 +32,7 @@ ASSUMPTIONS = [
     "phase requests use the setup phase (filter_env helper, request_inherit, request_bashrcs prologue) through ebd.run_generic_phase with the session's processor; helper requests are best_version calls; no profile bashrcs",
     "channel capacity 4 lines in the model; real pipes hold 64 KiB, no modelled exchange has more than 8 short lines in flight",
     "free-form die output and metadata key lines are collapsed to one line each before traces are compared",
+    "Excl: inherit inside an enumerated gen_ebuild_env run (pkgcore adds a QA notice line to the captured stderr there, which only changes how many stale lines a failing run leaves); the env-dump ordinary session covers inherit + gen_ebuild_env",
 ]
 BOUNDS = {
     "quick": "<=2 Python requests per session: first from all 12 request kinds x daemon-side event scripts (<=2 events + terminal per phase/metadata run), second from the 9 control requests; channel capacity 4; every model session replayed on the real pair; 8 ordinary real sessions checked against the model",
